@@ -70,6 +70,17 @@ def run(F, rep, tier):
     guard(F, rep)
     union_find(F, rep)
     minted_type_ids(F, rep, contracts)
+    # the tokenizer's `char_at_byte[i].unwrap()`: Some exactly at the byte offsets where a character starts (and at the
+    # end) - which is what the unit rules of C17 establish for every index used
+    import positions
+    before = len(rep.obs)
+    positions.unit_rules(F, rep, "UNIT")
+    if all(o["ok"] for o in rep.obs[before:]):
+        tk = F.fns.get("sylt_tokenizer::string_to_tokens")
+        if tk is not None:
+            for x in nodes(fn_body(tk)):
+                if x.get("k") == "Index" or (x.get("k") == "MethodCall" and x["m"] == "unwrap"):
+                    contracts[id(x)] = "UNIT char boundary"
     census(F, rep, contracts)
     cursor_total(F, rep)
     single_visit(F, rep)
